@@ -17,6 +17,17 @@ using a2_t = nmtools_array<nm_size_t,2>;
 using opt_a3_t = nmtools_maybe<a3_t>;
 opt_a3_t verif_f_broadcast_shape(a3_t a, a3_t b) { return ix::broadcast_shape(a,b); }
 opt_a3_t verif_f_broadcast_shape32(a3_t a, a2_t b) { return ix::broadcast_shape(a,b); }
+// kind C (clipped shapes: tuples of clipped_size_t<8>, run-time values with compile-time bounds): the result type is a tuple, filled
+// through meta::template_for; operands are built from / the result converted back to plain arrays inside the wrapper
+using c8_t = nm::clipped_size_t<8>;
+opt_a3_t verif_c_broadcast_shape(a3_t a, a3_t b)
+{
+    auto ta = nmtools_tuple{c8_t(a[0]), c8_t(a[1]), c8_t(a[2])};
+    auto tb = nmtools_tuple{c8_t(b[0]), c8_t(b[1]), c8_t(b[2])};
+    auto r = ix::broadcast_shape(ta, tb);
+    if (!static_cast<bool>(r)) return opt_a3_t{};
+    return opt_a3_t{a3_t{(nm_size_t)nm::get<0>(*r), (nm_size_t)nm::get<1>(*r), (nm_size_t)nm::get<2>(*r)}};
+}
 // element mapping of broadcast_to: destination index -> source index
 struct bti_res { bool ok; sv_t src_index; };
 using bti_res_t = bti_res;
